@@ -11,6 +11,7 @@ import Mahotas.Model.C12Kernels2
 import Mahotas.Proofs.C07
 import Mahotas.Proofs.C07Order
 import Mahotas.Proofs.C08Kernels
+import Mahotas.Proofs.C03Label
 namespace Mahotas.C12
 open Mahotas
 
@@ -956,6 +957,271 @@ theorem iterAddr_eq_addr (v : C08.View) (h : v.strides.length = v.shape.length) 
   exact C08.le_address v h k hk
 
 
+/-! ## value tie: cooccurence (`C19.coocModel`) -/
+
+theorem range_mul_map {β : Type} (d S : Nat) (g : Nat → β) :
+    (List.range (d * S)).map g = (List.range d).flatMap (fun i => (List.range S).map (fun j => g (i * S + j))) := by
+  induction d with
+  | zero => simp
+  | succ d ih =>
+    rw [Nat.succ_mul, List.range_add, List.map_append, ih, List.range_succ, List.flatMap_append]
+    simp [List.map_map, Function.comp_def]
+
+theorem boxPos_eq_allPos (s : List Nat) : C19.boxPos s = allPos s := by
+  induction s with
+  | nil => rfl
+  | cons d ds ih =>
+    unfold allPos
+    rw [show shapeSize (d :: ds) = d * shapeSize ds from rfl, range_mul_map]
+    unfold C19.boxPos
+    apply List.flatMap_congr
+    intro i _
+    rw [ih]
+    unfold allPos
+    rw [List.map_map]
+    apply List.map_congr_left
+    intro j hj
+    have hj' : j < shapeSize ds := List.mem_range.1 hj
+    simp only [Function.comp, unravelI, unravel, List.map_cons]
+    have h1 : (i * shapeSize ds + j) / shapeSize ds = i := by
+      rw [Nat.mul_comm, Nat.mul_add_div (by omega), Nat.div_eq_of_lt hj']; rfl
+    have h2 : (i * shapeSize ds + j) % shapeSize ds = j := by
+      rw [Nat.mul_comm, Nat.mul_add_mod, Nat.mod_eq_of_lt hj']
+    rw [h1, h2]
+    rfl
+
+theorem fixPos_ignore_eq_constant : ∀ (s : List Nat) (p : List Int), fixPos .ignore s p = fixPos .constant s p := by
+  intro s
+  induction s with
+  | nil => intro p; cases p <;> rfl
+  | cons d ds ih =>
+    intro p
+    cases p with
+    | nil => rfl
+    | cons a ps => simp only [fixPos, fixOffset, ih ps]
+
+theorem idx_lt (mm i j : Nat) (hi : i < mm) (hj : j < mm) : i * mm + j < mm * mm := by
+  calc i * mm + j < i * mm + mm := by omega
+    _ = (i + 1) * mm := by rw [Nat.succ_mul]
+    _ ≤ mm * mm := Nat.mul_le_mul_right _ hi
+
+theorem idx_inj (mm i j i' j' : Nat) (hj : j < mm) (hj' : j' < mm) (h : i * mm + j = i' * mm + j') :
+    i = i' ∧ j = j' := by
+  have h1 : (i * mm + j) / mm = i := by
+    rw [Nat.mul_comm, Nat.mul_add_div (by omega), Nat.div_eq_of_lt hj]; rfl
+  have h2 : (i' * mm + j') / mm = i' := by
+    rw [Nat.mul_comm, Nat.mul_add_div (by omega), Nat.div_eq_of_lt hj']; rfl
+  have h3 : (i * mm + j) % mm = j := by rw [Nat.mul_comm, Nat.mul_add_mod, Nat.mod_eq_of_lt hj]
+  have h4 : (i' * mm + j') % mm = j' := by rw [Nat.mul_comm, Nat.mul_add_mod, Nat.mod_eq_of_lt hj']
+  rw [h] at h1 h3
+  exact ⟨h1.symm.trans h2, h3.symm.trans h4⟩
+
+theorem getD_modify (acc : Array Nat) (idx k : Nat) (f : Nat → Nat) :
+    (acc.modify idx f).getD k 0 = if idx = k ∧ k < acc.size then f (acc.getD k 0) else acc.getD k 0 := by
+  simp only [Array.getD_eq_getD_getElem?, Array.getElem?_modify]
+  by_cases h : idx = k
+  · subst h
+    by_cases hk : idx < acc.size
+    · simp [hk]
+    · simp [hk]
+  · simp [h]
+
+section cooc
+variable (calls : List Call) (aA aBc aRes aFd aReg : Nat) (mm : Nat) (vA vR : C08.View) (im : Img Int)
+  (mA : Int → Int) (d : List Int)
+
+/-- the memory presents the running matrix `acc` in the result array and still holds the image -/
+def CoocInv (M : Mem) (acc : Array Nat) : Prop :=
+  acc.size = mm * mm ∧
+  (∀ i j, i < mm → j < mm →
+    M ((KLoc.mk aRes (vR.addr [i, j])).toLoc calls) = ((acc.getD (i * mm + j) 0 : Nat) : Int)) ∧
+  (∀ a, M ((KLoc.mk aA a).toLoc calls) = mA a)
+
+/-- the loop body of `C19.coocModel` -/
+def coocBody (acc : Array Nat) (p : List Int) : Array Nat :=
+  if inside im.shape (addPos p d) then
+    acc.modify ((im.getD p 0).toNat * mm + (im.getD (addPos p d) 0).toNat) (· + 1) else acc
+
+variable (hshape : im.shape = vA.shape) (hd : d.length = vA.shape.length)
+  (hAi : ∀ k, k < shapeSize vA.shape → iterAddr vA k = vA.addr (unravel vA.shape k))
+  (hAv : ∀ q, inside vA.shape q = true → mA (vA.addr (q.map Int.toNat)) = im.getD q 0)
+  (hval : ∀ q, inside vA.shape q = true → 0 ≤ im.getD q 0 ∧ im.getD q 0 < (mm : Int))
+  (hRinj : ∀ i j i' j', i < mm → j < mm → i' < mm → j' < mm → vR.addr [i, j] = vR.addr [i', j'] →
+    i = i' ∧ j = j')
+  (hA1 : aA ≠ aRes) (hA3 : aA ≠ aReg) (hR : aRes ≠ aReg)
+include hshape hd hAi hAv hval hRinj hA1 hA3 hR
+
+theorem cooc_log_inv (ks : List Nat) (hks : ∀ k ∈ ks, k < shapeSize vA.shape) :
+    ∀ (M : Mem) (acc : Array Nat), CoocInv calls aA aRes mm vR mA M acc →
+    CoocInv calls aA aRes mm vR mA
+      (execAll ((coocLog vA vR mA d ks).map
+        (fun r => (mkStep ⟨[aA, aBc], [aRes, aFd, aReg]⟩ r).compile calls)) M)
+      (ks.foldl (fun acc k => coocBody mm im d acc (unravelI vA.shape k)) acc) := by
+  induction ks with
+  | nil => intro M acc h; exact h
+  | cons k rest ih =>
+    intro M acc h
+    obtain ⟨hsz, hcell, hin⟩ := h
+    have hk : k < shapeSize vA.shape := hks k (List.mem_cons_self ..)
+    have ih' := ih (fun k' hk' => hks k' (List.mem_cons_of_mem _ hk'))
+    have hpin : inside vA.shape (unravelI vA.shape k) = true := C01.inside_unravelI _ _ hk
+    have hlen : (addPos (unravelI vA.shape k) d).length = vA.shape.length := by
+      rw [C01.addPos_length, hd, Mahotas.unravelI_length]; simp
+    have hfix : ∀ q', fixPos .ignore vA.shape (addPos (unravelI vA.shape k) d) = some q' ↔
+        (inside vA.shape (addPos (unravelI vA.shape k) d) = true ∧ q' = addPos (unravelI vA.shape k) d) := by
+      intro q'
+      rw [fixPos_ignore_eq_constant]
+      exact C03.fixPos_constant_inside vA.shape _ hlen q'
+    simp only [List.foldl_cons]
+    unfold coocLog
+    split
+    · -- flagged: no neighbour, nothing is counted
+      rename_i hn
+      have hnot : inside vA.shape (addPos (unravelI vA.shape k) d) ≠ true := by
+        intro hi
+        have := (hfix _).2 ⟨hi, rfl⟩
+        simp [nbrAddr, this] at hn
+      have hb : coocBody mm im d acc (unravelI vA.shape k) = acc := by
+        unfold coocBody; rw [hshape, if_neg hnot]
+      rw [hb]
+      simp only [List.map_cons, execAll, List.foldl_cons]
+      apply ih'
+      refine ⟨hsz, ?_, ?_⟩
+      · intro i j hi hj
+        rw [← hcell i j hi hj]
+        apply exec_frame
+        exact toLoc_ne_of_arr calls _ _ (by simp [mkStep, Call.arrOf]; exact hR)
+      · intro a
+        rw [← hin a]
+        apply exec_frame
+        exact toLoc_ne_of_arr calls _ _ (by simp [mkStep, Call.arrOf]; exact hA3)
+    · rename_i a hn
+      obtain ⟨q', hq', ha⟩ : ∃ q', fixPos .ignore vA.shape (addPos (unravelI vA.shape k) d) = some q' ∧
+          a = vA.addr (q'.map Int.toNat) := by
+        simp only [nbrAddr, Option.map_eq_some_iff] at hn
+        obtain ⟨q', h1, h2⟩ := hn
+        exact ⟨q', h1, h2.symm⟩
+      obtain ⟨hqin, rfl⟩ := (hfix q').1 hq'
+      have hv1 : mA (iterAddr vA k) = im.getD (unravelI vA.shape k) 0 := by
+        rw [hAi k hk, ← unravelI_toNat, hAv _ hpin]
+      have hv2 : mA a = im.getD (addPos (unravelI vA.shape k) d) 0 := by rw [ha, hAv _ hqin]
+      obtain ⟨hp0, hp1⟩ := hval _ hpin
+      obtain ⟨hq0, hq1⟩ := hval _ hqin
+      simp only
+      rw [hv1, hv2, if_neg (by omega)]
+      obtain ⟨v, hv⟩ : ∃ v : Nat, im.getD (unravelI vA.shape k) 0 = (v : Int) := ⟨_, (Int.toNat_of_nonneg hp0).symm⟩
+      obtain ⟨v2, hv2'⟩ : ∃ v2 : Nat, im.getD (addPos (unravelI vA.shape k) d) 0 = (v2 : Int) :=
+        ⟨_, (Int.toNat_of_nonneg hq0).symm⟩
+      have hvlt : v < mm := by omega
+      have hv2lt : v2 < mm := by omega
+      have hb : coocBody mm im d acc (unravelI vA.shape k) = acc.modify (v * mm + v2) (· + 1) := by
+        unfold coocBody; rw [hshape, if_pos hqin, hv, hv2']; simp
+      rw [hb, hv, hv2']
+      simp only [Int.toNat_natCast, List.map_cons, execAll, List.foldl_cons]
+      apply ih'
+      have hval' : ∀ x, (((mkStep ⟨[aA, aBc], [aRes, aFd, aReg]⟩ (⟨0, vR.addr [v, v2],
+            [⟨.own 0, vR.addr [v, v2]⟩, ⟨.inp 0, iterAddr vA k⟩, ⟨.inp 0, a⟩],
+            fun vs => vs.headD 0 + 1⟩ : RStep)).compile calls).exec M) x =
+          if x = (KLoc.mk aRes (vR.addr [v, v2])).toLoc calls then
+            ((acc.getD (v * mm + v2) 0 : Nat) : Int) + 1 else M x := by
+        intro x
+        rw [Step.exec, Mem.set_apply]
+        have e : (((mkStep ⟨[aA, aBc], [aRes, aFd, aReg]⟩ (⟨0, vR.addr [v, v2],
+            [⟨.own 0, vR.addr [v, v2]⟩, ⟨.inp 0, iterAddr vA k⟩, ⟨.inp 0, a⟩],
+            fun vs => vs.headD 0 + 1⟩ : RStep)).compile calls).dst) =
+            (KLoc.mk aRes (vR.addr [v, v2])).toLoc calls := rfl
+        rw [e]
+        congr 1
+        simp only [KStep.compile, mkStep, List.map_cons, List.headD_cons]
+        rw [← hcell v v2 hvlt hv2lt]
+        rfl
+      refine ⟨by simpa using hsz, ?_, ?_⟩
+      · intro i j hi hj
+        rw [hval', getD_modify]
+        by_cases hij : i = v ∧ j = v2
+        · obtain ⟨rfl, rfl⟩ := hij
+          rw [if_pos rfl, if_pos ⟨rfl, by rw [hsz]; exact idx_lt mm i j hi hj⟩]
+          simp
+        · have hne1 : (KLoc.mk aRes (vR.addr [i, j])).toLoc calls ≠ (KLoc.mk aRes (vR.addr [v, v2])).toLoc calls := by
+            intro heq
+            have := congrArg KLoc.off (KLoc.toLoc_inj calls _ _ heq)
+            exact hij (hRinj i j v v2 hi hj hvlt hv2lt this)
+          have hne2 : ¬(v * mm + v2 = i * mm + j ∧ i * mm + j < acc.size) := by
+            intro h
+            have := idx_inj mm v v2 i j hv2lt hj h.1
+            exact hij ⟨this.1.symm, this.2.symm⟩
+          rw [if_neg hne1, if_neg hne2, hcell i j hi hj]
+      · intro a'
+        rw [hval', if_neg (toLoc_ne_of_arr calls _ _ (by simpa using hA1)), hin]
+
+end cooc
+
+theorem cooccurence_solo_value (kcs : List KCall) (t : Nat) (vA vR vBc : C08.View) (bc : Array Int)
+    (mA : Int → Int) (aA aBc aRes aFd aReg : Nat)
+    (hk : kcs[t]? = some ((Kernel2.cooccurence vA vR vBc bc mA).call ⟨[aA, aBc], [aRes, aFd, aReg]⟩))
+    (hA1 : aA ≠ aRes) (hA2 : aA ≠ aFd) (hA3 : aA ≠ aReg) (hR1 : aRes ≠ aFd) (hR : aRes ≠ aReg)
+    (d : List Int) (rest : List (List Int)) (hfp : C07.footprint vBc.shape bc = d :: rest)
+    (hd : d.length = vA.shape.length)
+    (mm : Nat) (im : Img Int) (hshape : im.shape = vA.shape)
+    (hAlen : vA.strides.length = vA.shape.length)
+    (hAv : ∀ q, inside vA.shape q = true → mA (vA.addr (q.map Int.toNat)) = im.getD q 0)
+    (hval : ∀ q, inside vA.shape q = true → 0 ≤ im.getD q 0 ∧ im.getD q 0 < (mm : Int))
+    (hRinj : ∀ i j i' j', i < mm → j < mm → i' < mm → j' < mm → vR.addr [i, j] = vR.addr [i', j'] →
+      i = i' ∧ j = j')
+    (m : Mem) (hm : ∀ a, m ((KLoc.mk aA a).toLoc (kcs.map (·.call))) = mA a)
+    (hZ : ∀ i j, i < mm → j < mm → m ((KLoc.mk aRes (vR.addr [i, j])).toLoc (kcs.map (·.call))) = 0)
+    (i j : Nat) (hi : i < mm) (hj : j < mm) :
+    solo (compile kcs) t m ((KLoc.mk aRes (vR.addr [i, j])).toLoc (kcs.map (·.call))) =
+      (((C19.coocModel mm im d).getD (i * mm + j) 0 : Nat) : Int) := by
+  let c : Call := ⟨[aA, aBc], [aRes, aFd, aReg]⟩
+  have hcne : c.outputs ≠ [] := by simp [c]
+  let calls := kcs.map (·.call)
+  let cs : RStep → Step := fun r => (mkStep c r).compile calls
+  let N := shapeSize vA.shape
+  have hprog : compile kcs t = (filterCopyRaw 1 vBc).map cs ++ (coocLog vA vR mA d (List.range N)).map cs := by
+    unfold compile
+    rw [hk]
+    simp only [KCall.prog, Kernel2.call, Kernel2.raw, cooccurenceRaw, hfp, List.map_append, List.map_map]
+    rfl
+  rw [solo_eq_execAll, hprog, execAll_append]
+  have hinit : CoocInv calls aA aRes mm vR mA (execAll ((filterCopyRaw 1 vBc).map cs) m)
+      (Array.replicate (mm * mm) 0) := by
+    refine ⟨by simp, ?_, ?_⟩
+    · intro i j hi hj
+      have : (Array.replicate (mm * mm) (0 : Nat)).getD (i * mm + j) 0 = 0 := by
+        simp [Array.getD_eq_getD_getElem?, Array.getElem?_replicate]
+        split <;> rfl
+      rw [this]
+      show _ = (0 : Int)
+      rw [← hZ i j hi hj]
+      apply execAll_frame
+      intro s hs
+      obtain ⟨r, hr, rfl⟩ := List.mem_map.1 hs
+      simp only [filterCopyRaw, List.mem_map] at hr
+      obtain ⟨x, _, rfl⟩ := hr
+      exact toLoc_ne_of_arr calls _ _ (by simp [mkStep, Call.arrOf, c]; exact fun h => hR1 h.symm)
+    · intro a
+      rw [← hm a]
+      apply execAll_frame
+      intro s hs
+      obtain ⟨r, _, rfl⟩ := List.mem_map.1 hs
+      exact compiled_dst_ne calls c hcne r _ (by simp [c, hA1, hA2, hA3])
+  have hfin := cooc_log_inv calls aA aBc aRes aFd aReg mm vA vR im mA d hshape hd
+    (fun k hk => iterAddr_eq_addr vA hAlen k hk) hAv hval hRinj hA1 hA3 hR (List.range N)
+    (fun k hk => List.mem_range.1 hk) _ _ hinit
+  rw [hfin.2.1 i j hi hj]
+  congr 2
+  unfold C19.coocModel
+  rw [boxPos_eq_allPos, hshape]
+  unfold allPos
+  rw [List.foldl_map]
+  congr 1
+  funext acc k
+  unfold coocBody
+  rw [hshape]
+
+
+
 end Mahotas.C12
 
 /-! # property theorems (to be placed in `Properties/C12.lean`) -/
@@ -1152,6 +1418,38 @@ theorem C12_dilate_program_computes_model (kcs : List KCall) (t : Nat) (dt : DT)
       have := iterAddr_eq_addr vOut hOlen i (by rw [hOshape]; exact hi)
       rw [hOshape] at this
       exact this) hinj k hkn
+
+/-- **C12-T4 (tie: the cooccurence program computes `C19.coocModel`).** Let call number `t` of ANY family of
+calls be `cooccurence` on arrays `[aA, aBc]` → `[aRes, aFd, aReg]` (result matrix, `filter_data_`, register), the
+image array distinct from the owned ones and the result array distinct from the other two, with a structuring
+element whose FIRST non-zero entry is at offset `d` (of the image's rank). Let the image view have one stride per
+axis, let the initial memory of array `aA` be the memory `mA` the program was generated from, presenting the
+logical image `im` (all values in `[0, mm)`: no exception is thrown and every increment lands inside the `mm × mm`
+matrix), let the result view address the `mm × mm` cells injectively and let the matrix start at zero (as
+`texture.py` allocates it). Then after the SOLO run of the compiled step program — one read-modify-write
+`++res.at(val, val2)` per element whose neighbour at `d` lies inside the image (mode `ignore`), at an address
+that depends on the two values read — cell `(i, j)` of the result holds exactly `(C19.coocModel mm im d)[i*mm + j]`,
+the value of the model the driver runs (`c19 kind=cooc`). With `C12_concurrent_calls_independent` the same
+matrix is there after every complete interleaving with any other calls that have disjoint outputs. -/
+theorem C12_cooccurence_program_computes_model (kcs : List KCall) (t : Nat) (vA vR vBc : C08.View)
+    (bc : Array Int) (mA : Int → Int) (aA aBc aRes aFd aReg : Nat)
+    (hk : kcs[t]? = some ((Kernel2.cooccurence vA vR vBc bc mA).call ⟨[aA, aBc], [aRes, aFd, aReg]⟩))
+    (hA1 : aA ≠ aRes) (hA2 : aA ≠ aFd) (hA3 : aA ≠ aReg) (hR1 : aRes ≠ aFd) (hR : aRes ≠ aReg)
+    (d : List Int) (rest : List (List Int)) (hfp : C07.footprint vBc.shape bc = d :: rest)
+    (hd : d.length = vA.shape.length)
+    (mm : Nat) (im : Img Int) (hshape : im.shape = vA.shape)
+    (hAlen : vA.strides.length = vA.shape.length)
+    (hAv : ∀ q, inside vA.shape q = true → mA (vA.addr (q.map Int.toNat)) = im.getD q 0)
+    (hval : ∀ q, inside vA.shape q = true → 0 ≤ im.getD q 0 ∧ im.getD q 0 < (mm : Int))
+    (hRinj : ∀ i j i' j', i < mm → j < mm → i' < mm → j' < mm → vR.addr [i, j] = vR.addr [i', j'] →
+      i = i' ∧ j = j')
+    (m : Mem) (hm : ∀ a, m ((KLoc.mk aA a).toLoc (kcs.map (·.call))) = mA a)
+    (hZ : ∀ i j, i < mm → j < mm → m ((KLoc.mk aRes (vR.addr [i, j])).toLoc (kcs.map (·.call))) = 0)
+    (i j : Nat) (hi : i < mm) (hj : j < mm) :
+    solo (compile kcs) t m ((KLoc.mk aRes (vR.addr [i, j])).toLoc (kcs.map (·.call))) =
+      (((C19.coocModel mm im d).getD (i * mm + j) 0 : Nat) : Int) :=
+  cooccurence_solo_value kcs t vA vR vBc bc mA aA aBc aRes aFd aReg hk hA1 hA2 hA3 hR1 hR d rest hfp hd mm im
+    hshape hAlen hAv hval hRinj m hm hZ i j hi hj
 
 /-! ## non-vacuity -/
 
